@@ -785,6 +785,8 @@ def enc7(ctx, c):
             ("resolves to a label", dict(xd=False), dict(numeric=False, direct=False), "ExtendedOperand"),
             ("written with <, resolves to a label", dict(xd=True), dict(numeric=False, direct=False), "ExtendedOperand")]
     ev_ok, ev_bad, ev_notes = 0, [], []
+    from ..inline import flatten as _flat7
+    rs_flat = _flat7(repo, rs, depth=3)       # helpers of the class and `Class.factory(self)` classmethods read in place
     for title, oldp, newp, want_cls in cfgs:
         new_o = _Oe("Value", label="<resolved value>")
         new_o.attrs.update({"numeric": newp["numeric"], "direct": newp["direct"], "xd": False, "int": 0x10})
@@ -799,10 +801,12 @@ def enc7(ctx, c):
             enve[cn] = _Ce(cn)
         enve.update({"self.value": old_o, "self.operand_string": "TEXT", "self.instruction": _De("self.instruction")})
         evs, nts = [], []
-        end_ = _rce(body_without_doc(rs.node), enve, evs, nts, hooks=hk)
+        end_ = _rce(body_without_doc(rs_flat), enve, evs, nts, hooks=hk)
         ev_notes += nts
         rv = enve.get("$return")
         got = rv.cls if isinstance(rv, _Oe) else repr(rv)
+        if isinstance(rv, _De) and "(" in str(rv):
+            ev_notes.append("returns the result of a call that is not expanded: %r" % (rv,))
         if got == want_cls and want_cls == "ExtendedOperand":
             carried = rv.attrs.get("value", rv.args[2] if len(getattr(rv, "args", [])) > 2 else None)
             if carried is not new_o:
@@ -826,7 +830,7 @@ def enc7(ctx, c):
             c.ok("Operand.resolve_symbols:direct", "DirectOperand for a direct number or a < operand that resolves to a number (5 configurations evaluated)", wr_)
             c.ok("Operand.resolve_symbols:extended", "ExtendedOperand otherwise", wr_)
     try:
-        outs = Interp(rs.node).run() if not resolved_eval else []
+        outs = Interp(rs_flat).run() if not resolved_eval else []
     except PathCap as e:
         c.undecided("Operand.resolve_symbols", "path-cap", str(e), wr_)
         outs = []
@@ -917,6 +921,9 @@ def enc7(ctx, c):
                 # what the value classes are handed: the first argument and the mode keyword of the constructor calls in the cascade
                 from ..consteval import fold as _f7
                 vcalls = [x for x in ast.walk(cf.node) if isinstance(x, ast.Call) and U(x.func) in ("ExpressionValue", "NumericValue", "SymbolValue", "LeftRightValue") and x.args]
+                if not vcalls:
+                    # the cascade written as a loop over the classes: `for value_class ...: value_class(text, mode=mode)`
+                    vcalls = [x for x in ast.walk(cf.node) if isinstance(x, ast.Call) and isinstance(x.func, ast.Name) and x.args and any(k.arg == "mode" for k in x.keywords)]
                 texts_ = {U(x.args[0]) for x in vcalls}
                 modes_ = {U(k.value) for x in vcalls for k in x.keywords if k.arg == "mode"}
                 if len(texts_) == 1 and len(modes_) == 1:
